@@ -15,7 +15,7 @@ import (
 )
 
 func init() {
-	propertyRules["C19"] = []ruleFn{ruleCodecSym, ruleGobExported, ruleDecodeErr, ruleTypeSwitch, ruleHashInput, ruleCtor, ruleSig}
+	propertyRules["C19"] = []ruleFn{ruleCodecSym, ruleGobExported, ruleDecodeErr, ruleTypeSwitch, ruleHashInput, ruleCtor, ruleSig, ruleFixedRead}
 	propertyExplain["C19"] = "A-CODEC-SYM: for every type with EncodeBinary/DecodeBinary each field is read by the encoder on every successful path (or is a reasoned derived/cache field) and assigned by the decoder on every successful path; A-GOB-EXPORTED: structs handed to gob have only exported fields; G-DECODE-ERR: no decoder drops an error; A-TYPE-SWITCH: the recovery message packs every payload kind the library adds and each Get* reconstruction uses the kind and body type of the list it reads, copying every body field; A-HASH-INPUT: Hash() is Hash256 of the unsigned encoding (which covers every field except the cache) and block hash/sign/verify all feed GetHashData, which does not read the signature; P-CTOR: constructors use every named parameter in its role; P-SIG: Sign and Verify hash the message with the same function; Merkle parents hash left‖right. Collision resistance, ECDSA soundness and gob's robustness on arbitrary bytes are not decided."
 }
 
@@ -1179,4 +1179,127 @@ func (c *RC) isBodyType(tn string) bool {
 		}
 	}
 	return false
+}
+
+// A-FIXED-READ: a byte-slice field of a struct that gob fills from the wire has whatever length the sender chose. Reading
+// it with a fixed width (binary.*Endian.UintNN, a slice expression with constant bounds, a conversion to an array) panics
+// on a shorter value, after the decoder has accepted the payload. Every such read is length-checked in the function that
+// makes it, or the decoder of the enclosing message refuses other lengths.
+func ruleFixedRead(c *RC) *RuleResult {
+	r := &RuleResult{Rule: "A-FIXED-READ", Kind: "GUARD", Doc: "a variable-length byte field decoded from the wire is read with a fixed width only after its length was checked (at the read, or by the decoder that accepts the payload)"}
+	pkg := c.Prog.Pkgs["internal/consensus"]
+	if pkg == nil {
+		r.unresolved("package internal/consensus")
+		return r
+	}
+	info := pkg.TypesInfo
+	// wire structs: struct types of the package all of whose fields are exported and that contain a []byte field
+	// (directly); a field read is recognised by the selected field object
+	wire := map[*types.Var]string{}
+	scope := pkg.Types.Scope()
+	for _, name := range scope.Names() {
+		tn, ok := scope.Lookup(name).(*types.TypeName)
+		if !ok {
+			continue
+		}
+		st, ok := tn.Type().Underlying().(*types.Struct)
+		if !ok || unexportedField(st, map[*types.Struct]bool{}) != "" {
+			continue
+		}
+		for i := 0; i < st.NumFields(); i++ {
+			if sl, ok := st.Field(i).Type().Underlying().(*types.Slice); ok {
+				if b, ok := sl.Elem().Underlying().(*types.Basic); ok && b.Kind() == types.Byte {
+					wire[st.Field(i)] = name + "." + st.Field(i).Name()
+				}
+			}
+		}
+	}
+	fieldOf := func(e ast.Expr) (*types.Var, string) {
+		sel, ok := ast.Unparen(e).(*ast.SelectorExpr)
+		if !ok {
+			return nil, ""
+		}
+		if s := info.Selections[sel]; s != nil && s.Kind() == types.FieldVal {
+			if v, ok := s.Obj().(*types.Var); ok {
+				if nm, ok := wire[v.Origin()]; ok {
+					return v.Origin(), nm
+				}
+			}
+		}
+		return nil, ""
+	}
+	// does some function of the package compare len(x.F) for this field (a check at the read, or in a decoder)?
+	lenChecked := func(fv *types.Var, within *FuncInfo) (bool, bool) {
+		here, anywhere := false, false
+		for _, fn := range c.Prog.sortedFuncs() {
+			if fn.Pkg.PkgPath != consPath {
+				continue
+			}
+			ast.Inspect(fn.Decl.Body, func(n ast.Node) bool {
+				be, ok := n.(*ast.BinaryExpr)
+				if !ok {
+					return true
+				}
+				for _, side := range []ast.Expr{be.X, be.Y} {
+					if call, ok := ast.Unparen(side).(*ast.CallExpr); ok && len(call.Args) == 1 {
+						if id, ok := call.Fun.(*ast.Ident); ok && id.Name == "len" {
+							if v, _ := fieldOf(call.Args[0]); v == fv {
+								anywhere = true
+								if fn == within {
+									here = true
+								}
+							}
+						}
+					}
+				}
+				return true
+			})
+		}
+		return here, anywhere
+	}
+	n := 0
+	for _, fn := range c.Prog.sortedFuncs() {
+		if fn.Pkg.PkgPath != consPath {
+			continue
+		}
+		ast.Inspect(fn.Decl.Body, func(nd ast.Node) bool {
+			var arg ast.Expr
+			what := ""
+			switch x := nd.(type) {
+			case *ast.CallExpr:
+				if f, ok := typeutil.Callee(info, x).(*types.Func); ok && f.Pkg() != nil && f.Pkg().Path() == "encoding/binary" && strings.HasPrefix(f.Name(), "Uint") && len(x.Args) == 1 {
+					arg, what = x.Args[0], "binary."+f.Name()
+				}
+			case *ast.SliceExpr:
+				if x.High != nil {
+					if tv, ok := info.Types[x.High]; ok && tv.Value != nil {
+						arg, what = x.X, "slice expression with a constant bound"
+					}
+				}
+			}
+			if arg == nil {
+				return true
+			}
+			fv, nm := fieldOf(arg)
+			if fv == nil {
+				return true
+			}
+			n++
+			r.Sites++
+			here, anywhere := lenChecked(fv, fn)
+			switch {
+			case here:
+				r.ok(fmt.Sprintf("%s: %s of %s after a length check in the same function", fn.Name, what, nm))
+			case anywhere:
+				r.ok(fmt.Sprintf("%s: %s of %s, whose length the decoder validates", fn.Name, what, nm))
+			default:
+				r.fail(fn.Name+"/fixed-read:"+nm, c.Prog.Pos(nd), fmt.Sprintf("%s reads the wire field %s with a fixed width (%s) and nothing checks its length: a payload the decoder accepts makes this panic", fn.Name, nm, what))
+			}
+			return true
+		})
+	}
+	if n == 0 {
+		r.unresolved("fixed-width read of a decoded byte field")
+	}
+	return r
 }
